@@ -20,6 +20,7 @@ def retag (o : Opts) : CTerm K → CTerm K
   | .ifElse c t f => .ifElse (retag o c) (retag o t) (retag o f)
   | .vcat ts => .vcat (retags o ts)
   | .map _ i vals tr body => .map o.mapMode i vals tr (retag o body)
+  | .mapAt _ i v body => .mapAt o.mapMode i v (retag o body)
   | .call _ fn args => .call o.inline (retagF o fn) (retags o args)
 def retags (o : Opts) : CTerms K → CTerms K
   | .nil => .nil
@@ -45,6 +46,7 @@ theorem evalC_retag (P : Prims K) (o : Opts) : ∀ (t : CTerm K) (ρ : Env K),
     have : (fun v => evalC P (ρ.bind i v) (retag o body)) = (fun v => evalC P (ρ.bind i v) body) :=
       funext fun v => evalC_retag P o body (ρ.bind i v)
     rw [this]
+  | .mapAt m i v body, ρ => by simp [retag, evalC, evalC_retag P o body (ρ.bind i v)]
   | .call inl fn args, ρ => by
     simp only [retag, evalC, evalCs_retag P o args ρ]
     cases evalCs P ρ args with
@@ -160,6 +162,14 @@ theorem gen_retag (P : Prims K) (o o' : Opts) (T : FTab K) : ∀ e : MExpr K,
     cases gens P o T args with
     | error e => rfl
     | ok tas => simpa [bind, Except.bind] using userCall_retag o o' T f tas
+  | .delay k e d => by
+    simp only [gen, gen_retag P o o' T e, gen_retag P o o' T d]
+    cases gen P o T e with
+    | error e => rfl
+    | ok te =>
+      cases gen P o T d with
+      | error e => rfl
+      | ok td => simp [bind, Except.bind, retag]
 theorem gens_retag (P : Prims K) (o o' : Opts) (T : FTab K) : ∀ es : MExprs K,
     gens P o' (retagTab o' T) es = (gens P o T es).map (List.map (retag o'))
   | .nil => by simp [gens]
